@@ -17,7 +17,13 @@ static inline void build_props(Property*& p, const J& props) {
     // set_* prepend: apply in reverse so that the list order equals the description's order
     for (size_t i = props.size(); i-- > 0;) {
         const J& pr = props[i];
-        if (pr["k"].s() == "gds") {
+        if (pr["k"].s() == "gds" && pr.has("raw") && pr["raw"].t()) {
+            // the same property built through the generic interface: the string carries NO terminating
+            // NUL (as a b-string imported from an OASIS file would), the attribute is prepended to it
+            std::string v = j_str(pr["s"]);
+            set_property(p, "S_GDS_PROPERTY", (const uint8_t*)v.data(), (uint64_t)v.size(), true);
+            set_property(p, "S_GDS_PROPERTY", (uint64_t)pr["a"].i(), false);
+        } else if (pr["k"].s() == "gds") {
             set_gds_property(p, (uint16_t)pr["a"].i(), j_str(pr["s"]).c_str());
         } else {
             std::string name = j_str(pr["n"]);
